@@ -508,6 +508,7 @@ package plenccodec
 
 //@ func plenccodec.*Descriptor.readAsMapEntry
 //@   safety C04 C13
+//@   requires[C04] len(d.Elements) >= 1        # only called for valid map entries (two elements)
 //@   loop 1 invariant[C04] 0 <= offset && offset <= l && l == len(data)
 //@   loop 1 decreases l - offset
 //@   loop 2 invariant[C04] 0 <= rangeindex + 1
